@@ -177,6 +177,13 @@ class Impl:
         self.theory, self.term, self.thm, self.proof, self.report = theory, term, thm, proof, report
         self.proofterm, self.macro, self.htype = proofterm, macro, htype
         self.basic, self.context, self.server, self.items = basic, context, server, items
+        try:
+            # the z3 macro has no expansion (nothing for C04 to compare) and its solver calls dominate the replay of
+            # the library proofs and cannot be interrupted: the macro's own switch makes eval return the goal unsolved
+            from prover import z3wrapper
+            z3wrapper.check_z3 = False
+        except Exception:  # noqa
+            pass
         self.rec = []
         self.recording = False
         self.cur = (None, None)          # (theory file, limit) describing theory.thy for replays
@@ -1334,7 +1341,8 @@ def run(ctx):
     ctx.assumptions += [
         "per-macro agreement of eval and expansion is validated on harvested/mutated/generated inputs, not proved",
         "a macro whose expansion raises on an input makes no claim for that input (property text); such inputs are counted, not judged",
-        "hash collisions of Thm in ProofTerm.export's seq_to_id are not modelled (sharing = identical ordered hyps + prop)"]
+        "hash collisions of Thm in ProofTerm.export's seq_to_id are not modelled (sharing = identical ordered hyps + prop)",
+        "while replaying library proofs the z3 macro (trusted, no expansion) is run with prover.z3wrapper.check_z3 = False"]
     # 2. implementation
     impl = Impl(ctx)
     for mod, err in impl.import_errors.items():
